@@ -71,6 +71,32 @@ func fzTakesIface(d fzIface) *fzConsumer              { return &fzConsumer{} }
 func fzTakesIfaceIn(in fzIfaceIn) *fzConsumer         { return &fzConsumer{} }
 func fzTakesIfaceGroup(in fzIfaceGroupIn) *fzConsumer { return &fzConsumer{} }
 
+// multi-output constructors whose LATER outputs cannot be registered
+type fzOutResG struct {
+	godi.Out
+	Svc  *pool.K0
+	Hook *pool.K1        `group:"hooks"`
+	Ctx  context.Context `group:"contexts"`
+}
+type fzOutResP struct {
+	godi.Out
+	Svc *pool.K0
+	Sc  godi.Scope
+}
+type fzOutDupG struct {
+	godi.Out
+	Hook *pool.K1 `group:"hooks"`
+	A    *pool.K0
+	B    *pool.K0
+}
+
+func fzOutResGrouped() fzOutResG {
+	return fzOutResG{Svc: &pool.K0{}, Hook: &pool.K1{}, Ctx: context.Background()}
+}
+func fzOutResPlain() fzOutResP          { return fzOutResP{Svc: &pool.K0{}} }
+func fzMRScope() (*pool.K0, godi.Scope) { return &pool.K0{}, nil }
+func fzOutDupAfterGroup() fzOutDupG     { return fzOutDupG{Hook: &pool.K1{}, A: &pool.K0{}, B: &pool.K0{}} }
+
 type fzIn struct {
 	godi.In
 	A *pool.K1 `optional:"true"`
@@ -114,6 +140,8 @@ func fuzzServices() []struct {
 		{"reflect-value", reflect.ValueOf(fzK0)}, {"reflect-type", reflect.TypeOf(0)}, {"good", fzK0},
 		{"struct-typed-error-result", fzStructErr}, {"int-typed-error-result", fzIntErr}, {"pointer-typed-error-result-nil", fzPtrErrNil},
 		{"pointer-typed-error-result-set", fzPtrErrSet}, {"struct-typed-error-only", fzStructErrOnly},
+		{"out-reserved-type-grouped-last", fzOutResGrouped}, {"out-reserved-type-plain-last", fzOutResPlain}, {"multi-return-reserved-type-last", fzMRScope},
+		{"out-duplicate-after-group-field", fzOutDupAfterGroup},
 	}
 }
 
@@ -125,7 +153,7 @@ func fuzzOptionSets() []struct {
 		name string
 		opts []godi.AddOption
 	}{
-		{"none", nil}, {"nil-option", []godi.AddOption{nil}}, {"name-empty", []godi.AddOption{godi.Name("")}},
+		{"none", nil}, {"group", []godi.AddOption{godi.Group("things")}}, {"nil-option", []godi.AddOption{nil}}, {"name-empty", []godi.AddOption{godi.Name("")}},
 		{"group-empty", []godi.AddOption{godi.Group("")}}, {"name+group", []godi.AddOption{godi.Name("a"), godi.Group("b")}},
 		{"name-backquote", []godi.AddOption{godi.Name("a`b")}}, {"group-backquote", []godi.AddOption{godi.Group("`")}},
 		{"as-unimplemented", []godi.AddOption{godi.As[pool.IS7]()}}, {"as-nonInterface", []godi.AddOption{godi.As[int]()}},
@@ -172,6 +200,13 @@ func runC15Fuzz(c *eng.Ctx, cr *caseRunner) {
 				if pan != nil {
 					viol(idx, "api-call-panics", "Add:"+sv.name+":"+os.name, fmt.Sprintf("Add%s(%s, %s) panicked: %v", lifeName(life), sv.name, os.name, pan))
 					continue
+				}
+				// a rejected call leaves no partial state: the collection was fresh, so it must be empty
+				if err != nil {
+					c.R.Count("rejected_adds_checked_for_partial_state", 1)
+					if n, sl := coll.Count(), coll.ToSlice(); n != 0 || len(sl) != 0 {
+						viol(idx, "partial-state-after-rejected-Add", sv.name+":"+os.name, fmt.Sprintf("Add%s(%s, %s) returned %v but left %d registration(s) behind in a fresh collection (ToSlice: %d)", lifeName(life), sv.name, os.name, trimErr(err), n, len(sl)))
+					}
 				}
 				// whatever was accepted must not make Build / CreateScope / Get / Close panic
 				if err == nil && li == si%3 {
